@@ -5,12 +5,13 @@
     `check()`, `check_ref()` on the same set with every -0.0 replaced by +0.0, the parameters read
     back, and every `fit` / `fit_with` / `transform` entry point called on the UNCHECKED builder.
 
-    corr   : the translated guard (gen/C04_guards.v) and the blanket-impl model (Model.v) against
-             the implementation;
+    corr   : the translated guard (gen/C04_guards.v), the blanket-impl model (Model.v) and the table of
+             entry points read off the sources (C04/Entry.v: every entry point of the builder must have the
+             `check_ref`-first shape and must have been called by the harness) against the implementation;
     oracle : the documented ranges (Spec.v) and the by-value / by-reference / unchecked-call
              clauses of the property against the implementation's output. *)
 From Coq Require Import List NArith ZArith Bool Ascii String SpecFloat QArith.
-From LinfaVerif Require Export Common.Num Common.B32 Common.QF Common.Run C04.Model gen.C04_guards C04.Spec.
+From LinfaVerif Require Export Common.Num Common.B32 Common.QF Common.Run C04.Model gen.C04_guards C04.Spec C04.Entry.
 Import ListNotations.
 Open Scope string_scope.
 
@@ -111,8 +112,6 @@ Definition verdict_eqb (a b : verdict_obs) : bool :=
 
 Definition lookup_fact (l : list (string * bool)) (b : string) : bool :=
   (fix go l := match l with [] => false | (k, v) :: r => if String.eqb k b then v else go r end) l.
-Definition entry_points_ok (b : string) : bool :=
-  forallb (fun t => let '(k, _, ok) := t in negb (String.eqb k b) || ok) explicit_unchecked_entry_points.
 
 (** * correspondence *)
 (* the prediction of the blanket-impl model for a call on the unchecked builder, given the MODEL's
@@ -122,6 +121,13 @@ Definition call_agrees (m : option gerr) (k : call_obs) : bool :=
   match blanket_fit (fun e : gerr => e) m (fun _ : unit => tt) with
   | UGuardErr _ => N.eqb (k_outcome k) 1
   | UDelegated _ => negb (N.eqb (k_outcome k) 1) && k_eq k
+  end.
+
+Definition calls_cover (c : case) : bool :=
+  match c_calls c with
+  | [] => true                                           (* no entry point was called on this parameter set *)
+  | ks => existsb (fun k => N.eqb (k_outcome k) 4) ks    (* the first call did not come back: the others were not made *)
+          || forallb (fun key => existsb (fun k => String.eqb (k_kind k) key) ks) (required_calls (c_builder c))
   end.
 
 Definition corr_code (c : case) : N :=
@@ -134,9 +140,8 @@ Definition corr_code (c : case) : N :=
                | None => true
                end) 2
        + flag (forallb (call_agrees m) (c_calls c)) 4
-       + flag (lookup_fact check_is_check_ref_then_unwrap (c_builder c)
-               && blanket_fit_calls_check_ref_first && blanket_fit_with_calls_check_ref_first
-               && blanket_transform_calls_check_ref_first && entry_points_ok (c_builder c)) 8)%N
+       + flag (lookup_fact check_is_check_ref_then_unwrap (c_builder c) && entry_points_ok (c_builder c)) 8
+       + flag (calls_cover c) 16)%N
   end.
 
 (** * property oracle *)
